@@ -58,7 +58,7 @@ def h_fibdemux(cfg):
     dflt = Rec(env, 'default') if cfg['default'] else None
     ends = {f: Rec(env, 'end%d' % f) for f in cfg['ends']}
     fib = {f: sym_int('port%d' % f, 0, k) for f in cfg['fib_flows']}     # k = out of range
-    dm = FIBDemux(outs=outs, ends=dict(ends) if ends else None, fib=fib, default_out=dflt)
+    dm = FIBDemux(outs=outs if k else None, ends=dict(ends) if ends else None, fib=fib, default_out=dflt)     # no outputs: outs omitted
     fl = choice('flow', cfg['nflows'])
     pkt = mk_packet(Packet, 0, sym_int('size', 1), 1, flow_id=fl)
     try:
@@ -195,6 +195,19 @@ def h_hub(cfg):
     env = Environment()
     m = cfg['nend']
     ends = [Rec(env, 'e%d' % i) for i in range(m)]
+    if cfg.get('anonymous_last'):
+        # the last endpoint is a library device that was never given an element id (a PacketSink, as in the demos)
+        from onl.packet import PacketSink
+
+        class SinkRec(PacketSink):
+            def __init__(self, env):
+                super().__init__(env)
+                self.log = []
+
+            def put(self, packet):
+                self.log.append((packet, self.env.now))
+                super().put(packet)
+        ends[-1] = SinkRec(env)
     mode = cfg['ports']
     try:
         if mode == 'none':
@@ -225,6 +238,8 @@ def h_hub(cfg):
     except Exception as ex:  # noqa
         fail('no-raise', 'put: %s: %s' % (type(ex).__name__, ex))
         return
+    if cfg.get('anonymous_last') and s == m - 1:
+        s = m           # the name 'e<m-1>' belongs to no attached endpoint (the last one is anonymous): an outside sender
     for i, e in enumerate(ends):
         got = sum(1 for p, _ in e.log if p is pkt)
         check('c18.hub-repeat', got == (0 if i == s else 1), 'endpoint %d got %d (sender %s)' % (i, got, src))
@@ -521,6 +536,10 @@ def jobs(tier, seed):
     for m in (1, 2, 3, 4):
         for mode in ('none', 'ctor-empty', 'all', 'mixed', 'add'):
             js.append({'harness': 'hub', 'cfg': {'nend': m, 'ports': mode}})
+    for mode in ('none', 'all'):
+        js.append({'harness': 'hub', 'cfg': {'nend': 3, 'ports': mode, 'anonymous_last': True}})
+    for d in (True, False):
+        js.append({'harness': 'fibdemux', 'cfg': {'nouts': 0, 'default': d, 'ends': [1], 'fib_flows': [0], 'nflows': 3}})
     js.append({'harness': 'splitter', 'cfg': {'kind': 'two', 'N': 2}})
     js.append({'harness': 'splitter', 'cfg': {'kind': 'two', 'N': 2, 'unset': [0]}})
     js.append({'harness': 'splitter', 'cfg': {'kind': 'two', 'N': 2, 'stamping_first': True}})
